@@ -12,7 +12,7 @@ Definition dec_op (c a : Z) : op :=
   else if c =? 13 then (if a =? 0 then QBasins else QPit)   (* a <> 0: to_array, which only needs the pits *)
   else if c =? 14 then QPathUp else if c =? 15 then QPathDown
   else if c =? 16 then MAddPits else if c =? 17 then MRepair (negb (a =? 0)) else if c =? 18 then MSetTransform
-  else if c =? 19 then MOrder (if a =? 0 then Sort else Walk) else MDumpLoad.
+  else if c =? 19 then MOrder (if a =? 0 then Sort else Walk) else if c =? 21 then QStreamDist an else MDumpLoad.
 
 Fixpoint dec_ops (l : list Z) : list op :=
   match l with c :: a :: t => dec_op c a :: dec_ops t | _ => [] end.
@@ -29,7 +29,7 @@ Definition freshb (s : state) (args : list nat) (t : tag) : bool :=
 
 Definition op_args_of (o : op) : list nat :=
   match o with
-  | QMainUp a => [a; 0%nat] | QStrahler m => [m; 0%nat] | QClassic m => [m; 0%nat] | QAccuflux d => [d; 0%nat] | _ => [0%nat]
+  | QMainUp a => [a; 0%nat] | QStrahler m => [m; 0%nat] | QClassic m => [m; 0%nat] | QAccuflux d => [d; 0%nat] | QStreamDist m => [m; 0%nat] | _ => [0%nat]
   end.
 Fixpoint run_occ (s : state) (ops : list op) : list (list Z) :=
   match ops with
